@@ -85,10 +85,14 @@ func (ch *ConnectionHandler) acceptStream() {
 		stream = streams.NewNamedConnection(stream, stream.RemoteAddr().String())
 		log.Debugf("[Server] New logical connection accepted: %v", stream)
 
-		if err = ch.multiplexToUpstream(stream); err != nil {
-			log.WithError(err).Errorf("Error selecting multichannel stream: %v", err)
-			streams.TryClose(stream)
-		}
+		// Serve each logical connection on its own goroutine: the handler lasts as long as the
+		// connection does, and further streams of the session must be accepted meanwhile
+		go func(stream net.Conn) {
+			if err := ch.multiplexToUpstream(stream); err != nil {
+				log.WithError(err).Errorf("Error selecting multichannel stream: %v", err)
+				streams.TryClose(stream)
+			}
+		}(stream)
 	}
 }
 
